@@ -145,10 +145,13 @@ def scrape_sites():
                         "vcode": VISITORS.get(cur, 0), "force": fcode, "untypedinit": ucode})
     if len(out) < 10:
         raise RuntimeError("cannot find the add_converted_val call sites in cgenerator.lua")
-    # the rule `local checked = not (force or untypedinit)` of cemitter.add_converted_val
+    # the rule of cemitter.add_converted_val that turns the flags into "checked": `not force` since
+    # ddc4da5 (`not (force or untypedinit)` before: untypedinit switched the narrowing check off)
     em = vlib.repo_read("lualib/nelua/cemitter.lua")
-    if not re.search(r"local checked = not \(force or untypedinit\)\s*\n\s*self:add_typed_val\(type, val, valtype, checked\)", em):
-        raise RuntimeError("cemitter.add_converted_val no longer computes `checked = not (force or untypedinit)`")
+    m = re.search(r"local checked = (not force|not \(force or untypedinit\))[^\n]*\n\s*self:add_typed_val\(type, val, valtype, checked\)", em)
+    if not m:
+        raise RuntimeError("cemitter.add_converted_val: the rule computing `checked` from force/untypedinit changed shape")
+    scrape_sites.rule_ignores_untypedinit = (m.group(1) == "not force")
     if not re.search(r"if check and not self\.context\.pragmas\.nochecks and type\.is_integral and valtype\.is_scalar and\s*\n\s*not type:is_type_inrange\(valtype\) then", em):
         raise RuntimeError("cemitter.add_typed_val: the needs-check condition changed shape")
     return out
@@ -281,8 +284,11 @@ def gen(ctx):
           "(* add_converted_val call sites of cgenerator.lua: (visitor, ordinal, force, untypedinit);",
           "   flags: 0 = absent/nil/false, 1 = literal true, 2 = some other expression *)",
           "Definition conv_sites : list (Z * Z * Z * Z) := ["]
+    rule = "true" if scrape_sites.rule_ignores_untypedinit else "false"
     L.append(";\n".join("  (%d, %d, %d, %d)" % (s["vcode"], s["ordinal"], s["force"], s["untypedinit"]) for s in sites))
-    L += ["].", "", "(* guards of the library accessors, variables: 0 = position, 1 = size, 2 = impl pointer *)"]
+    L += ["].", "", "(* add_converted_val: true = `checked = not force`, false = `checked = not (force or untypedinit)` *)",
+          "Definition check_rule_ignores_untypedinit : bool := %s." % rule,
+          "", "(* guards of the library accessors, variables: 0 = position, 1 = size, 2 = impl pointer *)"]
     for key in sorted(guards):
         L.append("Definition guard_%s : cexpr := %s." % (key, cparse.coq(guards[key]["ast"])))
     L.append("Definition guard_sequence_at_pre : cexpr := %s." % cparse.coq(guards["sequence_at"]["pre"]))
@@ -290,6 +296,7 @@ def gen(ctx):
     return {"types": {k: {"bits": v[0], "signed": v[1]} for k, v in types.items()},
             "helpers": {"narrow": len(narrow), "bounds": len(bounds), "idiv": len(idiv), "imod": len(imod), "deref": 1,
                         "float_narrow_not_translated": len(skipped)},
+            "check_rule": "checked = not force" if scrape_sites.rule_ignores_untypedinit else "checked = not (force or untypedinit)",
             "conversion_sites": [{k: s[k] for k in ("line", "visitor", "ordinal", "args", "force", "untypedinit")} for s in sites],
             "library_guards": {k: {"source": v["source"], "message": v["message"]} for k, v in guards.items()},
             "driver_fingerprint": repo_fingerprint()}
